@@ -82,6 +82,7 @@ void __asan_on_error (void) { asan_errs++; } /* with -fsanitize-recover=address 
 #endif
 static double now (void) { struct timespec ts; clock_gettime (CLOCK_MONOTONIC, &ts); return ts.tv_sec + ts.tv_nsec * 1e-9; }
 
+uint64_t vp_shard = 0, vp_nshards = 1; /* enumeration stride of this process, for drivers that prepare cases in batches */
 int vp_main (int argc, char **argv) {
   uint64_t shard = 0, nshards = 1, from = 0, only = UINT64_MAX, limit = UINT64_MAX; double deadline = 0; int case_timeout = 20;
   const char *status_file = NULL, *out_file = NULL, *oset_file = NULL; int describe_only = 0;
@@ -132,6 +133,7 @@ int vp_main (int argc, char **argv) {
     return 0;
   }
   struct itimerval tv = {{0, 0}, {case_timeout, 0}}, off = {{0, 0}, {0, 0}};
+  vp_shard = shard; vp_nshards = nshards;
   uint64_t i = shard; if (i < from) i += (from - i + nshards - 1) / nshards * nshards;
   uint64_t k = 0;
   st->state = 1;
